@@ -137,6 +137,8 @@ def run_shard(desc):
         maxsize = 65535 if ext else 4096
         k = {'ibgp': r.random() < 0.5, 'las': 65000, 'peer_asn4': True, 'addpath': r.choice([0, 0, 3]), 'extmsg': ext}
         mix = r.choice(['v4', 'v6', 'v4+v6', 'v4+label', 'v4+v6+label'])
+        if 'label' in mix and r.random() < 0.6:
+            k['enh'] = True
         fams = {'v4': [(1, 1)], 'v6': [(2, 1)], 'v4+v6': [(1, 1), (2, 1)], 'v4+label': [(1, 1), (1, 4)], 'v4+v6+label': [(1, 1), (2, 1), (1, 4)]}[mix]
         mode = r.choice(['announce', 'announce', 'withdraw', 'both'])
         regime = r.choice(['small', 'extlen-switch', 'near-max', 'near-max', 'fill'])
@@ -145,14 +147,14 @@ def run_shard(desc):
             # the room left for the MP attribute crosses 255 octets (its own header grows from 3 to 4 octets there): every
             # room from ~215 to ~325 octets is visited, each shard and seed taking its own slice
             regime = 'mp-extlen-sweep'
-            mix = r.choice(['v6', 'v6', 'v4+v6', 'v4+label'])
+            mix = r.choice(['v6', 'v6', 'v4+v6', 'v4+label', 'v4+label'])
             fams = {'v6': [(2, 1)], 'v4+v6': [(1, 1), (2, 1)], 'v4+label': [(1, 1), (1, 4)]}[mix]
             mode = r.choice(['announce', 'announce', 'withdraw', 'both'])
             # every room twice in a row: the second time the SAME attribute collection object is packed for a session which
             # differs in the 4-byte AS capability only (a peer which comes back with another OPEN)
             sj = ci - desc['collections']
             sweep_L = (sj // 2 + 7 * desc['shard'] + 13 * desc['seed']) % 112
-            k = dict(k, ibgp=False, peer_asn4=(sj % 2 == 0))
+            k = dict(k, ibgp=False, peer_asn4=(sj % 2 == 0), enh='label' in mix and (sj // 2) % 2 == 0)
             target = 4096 - 23 - SWEEP_BASE_ROOM + 3 + sweep_L
         elif regime == 'small':
             target = r.choice([0, 40, 120])
@@ -195,6 +197,10 @@ def run_shard(desc):
                 count = r.choice([fit, 2 * fit + 1, 3 * fit + 2, 4 * fit])  # several full MP attributes, each filled to the brim
             count = max(1, min(count, (17000 if ext else 1100) if desc['tier'] == 'quick' else (17000 if ext else 6000)))
             hops = {(1, 1): ['192.0.2.1'], (2, 1): ['2001:db8::1', '2001:db8::2', '2001:db8::3', '2001:db8::4'][: r.choice([1, 1, 2, 4])], (1, 4): ['192.0.2.7', '192.0.2.8'][: r.choice([1, 2])]}[fam]
+            if fam == (1, 4) and k.get('enh'):
+                # RFC 8950 negotiated: the same family carries IPv4 and IPv6 next hops, whose MP_REACH headers differ in length
+                hops = r.choice([['192.0.2.7', '2001:db8::7'], ['2001:db8::7', '192.0.2.7', '2001:db8::8'], ['2001:db8::7']])
+                res.count('labelled-family-with-mixed-next-hop-lengths')
             for i, p in enumerate(nlri_texts(r, fam, count, base)):
                 nh = hops[i % len(hops)]
                 label = ' label 100' if fam == (1, 4) else ''
